@@ -141,13 +141,33 @@ _GENAI = None
 _WEB = None
 
 
-def boavizta_choices():
+# instance types for which the packaged Boavizta data itself fails (known finding KF-31): not valid by construction
+BOAVIZTA_BROKEN = [("aws", "ra3.16xlarge"), ("aws", "ra3.4xlarge"), ("gcp", "c3d-highmem-180 "),
+                   ("gcp", "c3d-highmem-360 "), ("gcp", "c3d-standard-360 "), ("gcp", "c4-highmem-192 ")]
+
+
+def boavizta_choices(include_broken=False):
     global _BOAVIZTA
     if _BOAVIZTA is None:
         from efootprint.builders.hardware.boavizta_cloud_server import BoaviztaCloudServer
         clv = BoaviztaCloudServer.conditional_list_values()["instance_type"]["conditional_list_values"]
         _BOAVIZTA = sorted((k.value, v.value) for k, vals in clv.items() for v in vals)
+    if not include_broken:
+        return [c for c in _BOAVIZTA if c not in BOAVIZTA_BROKEN]
     return _BOAVIZTA
+
+
+_BOAVIZTA_RAM = {}
+
+
+def boavizta_ram_gb(provider, instance_type):
+    key = (provider, instance_type)
+    if key not in _BOAVIZTA_RAM:
+        from efootprint.builders.hardware.boaviztapi_utils import call_boaviztapi
+        r = call_boaviztapi(url="https://api.boavizta.org/v1/cloud/instance",
+                            params={"provider": provider, "instance_type": instance_type})
+        _BOAVIZTA_RAM[key] = float(r["verbose"]["memory"]["value"])
+    return _BOAVIZTA_RAM[key]
 
 
 def genai_choices():
@@ -263,6 +283,15 @@ def specs(draw, sharing=None, builders=None, max_len=48, long_prob=0.1, neg_stor
                     ram = objs[srv].get("ram", [128.0, "GB"])[0] if scls == "Server" else None
                     if ram is not None and ram < 32:
                         objs[srv]["ram"] = [64.0, "GB"]
+                    if scls == "BoaviztaCloudServer":
+                        # the service must fit in the instance (its RAM comes from the Boavizta data)
+                        cap = boavizta_ram_gb(objs[srv]["provider"], objs[srv]["instance_type"]) * \
+                            objs[srv].get("server_utilization_rate", [0.9])[0]
+                        already = sum(objs[x].get("base_ram_consumption", [2.0])[0] for x in services
+                                      if objs[x]["cls"] == "VideoStreaming" and objs[x]["server"] == srv)
+                        room = max(cap * 0.6 - already, 0.0)
+                        want = e.get("base_ram_consumption", [2.0, "GB"])[0]
+                        e["base_ram_consumption"] = [float("%.3g" % min(want, room / 2 if room else 0.0)), "GB"]
                 else:
                     e = {"cls": "WebApplication", "server": srv, "technology": draw(st.sampled_from(web_choices()))[0]}
             objs["svc%d" % i] = e
